@@ -195,6 +195,73 @@ theorem all_results_produced (c : Cfg) (ran : List Item) (hq : c.qam = false) (h
       rw [main_files_par c _ hm hp hok, printThread_ok _ (filesParWalk_sent_ok c ran {} hw)]
       simp [filesParWalk_out, filesPar_out c hm hq ran {} hw]
 
+/-! ### `--stats` -/
+
+/-- With `--stats` (or `--json`) and a live consumer, the summary is printed and counts exactly the files
+of the tree whose search succeeded, and those of them that matched — single- and multi-threaded, every
+schedule, whatever faults occurred in between, with or without `--quiet` (which does not stop early
+under `--stats`). -/
+theorem stats_table (c : Cfg) (all ran : List Item) (hs : Sched c all ran) (hw : WritesOk all)
+    (hmode : c.mode = .search) (hst : c.stats = true) (hok : c.setupOk = true) (hmp : c.matchesPossible = true) :
+    statsPrinted c ran = some (specStats all) := by
+  have hq : c.qam = false := by simp [Cfg.qam, hst]
+  cases hp : c.parallel with
+  | false =>
+    have : ran = all := by simpa [Sched, hp] using hs
+    subst this
+    simp [statsPrinted, hst, hmode, hmp, hok, hp, searchStats_ok c hq ran false {} hw, specStats]
+  | true =>
+    obtain ⟨rest, hperm, hrest⟩ : ∃ rest, (ran ++ rest).Perm all ∧ (quitIssued c ran = false → rest = []) := by
+      simpa [Sched, hp] using hs
+    have hwr : WritesOk ran := fun x hx => hw x (hperm.mem_iff.mp (List.mem_append_left _ hx))
+    have hbp := (parSearchLoop_flags c hmode ran {} hwr).2.2.2
+    have hnq : (parSearchLoop c ran {}).2 = false := by
+      cases hqq : (parSearchLoop c ran {}).2 with
+      | false => rfl
+      | true =>
+        have := (parSearchLoop_quit c ran {} hwr hqq).2
+        rw [hq] at this
+        cases this
+    have hr : rest = [] := hrest (by simp [quitIssued, hmode, hnq])
+    subst hr
+    simp only [List.append_nil] at hperm
+    have hbp' : (parSearchLoop c ran {}).1.brokenPipe = false := by simpa using hbp
+    simp [statsPrinted, hst, hmode, hmp, hok, hp, hbp', parStats_eq, specStats, hperm.countP_eq]
+
+/-- A consumer that closes the pipe gets no summary (the driver returns before `print_stats`). -/
+theorem stats_not_after_pipe (c : Cfg) (ran : List Item) (hmode : c.mode = .search)
+    (hpipe : pipeHit c ran = true) (hq : c.qam = false) : statsPrinted c ran = none := by
+  unfold statsPrinted
+  split
+  · rfl
+  · cases hp : c.parallel with
+    | true =>
+      have : (parSearchLoop c ran {}).1.brokenPipe = true := by simpa [pipeHit, hmode, hp] using hpipe
+      simp [this]
+    | false =>
+      have hl : (searchLoop c ran {}).2 = true := by simpa [pipeHit, hmode, hp] using hpipe
+      simp only [Bool.not_false, if_true]
+      -- the two loops leave at the same entry
+      have key : ∀ (items : List Item) (st : St) (m : Bool) (s : Stats), st.matched = m →
+          (searchLoop c items st).2 = true → searchStats c items m s = none := by
+        intro items
+        induction items with
+        | nil => intro st m s _ h; simp [searchLoop] at h
+        | cons x xs ih =>
+          intro st m s hm h
+          cases x with
+          | walkErr => simp only [searchLoop] at h; simp only [searchStats]; exact ih _ m s (by simpa using hm) h
+          | skip => simp only [searchLoop] at h; simp only [searchStats]; exact ih _ m s hm h
+          | file id sr wr =>
+            cases sr with
+            | pipe => simp [searchStats]
+            | err => simp only [searchLoop] at h; simp only [searchStats]; exact ih _ m s (by simpa using hm) h
+            | ok mm =>
+              simp only [searchLoop, hq, Bool.and_false, Bool.false_eq_true, if_false] at h
+              simp only [searchStats, hq, Bool.and_false, Bool.false_eq_true, if_false]
+              exact ih _ (m || mm) _ (by simp [hm]) h
+      exact key ran {} false {} rfl hl
+
 /-! ### The consumer closes the pipe -/
 
 /-- `search_preprocessor` keeps the kind of the error it re-wraps (the revert of ea0b57f is a mutant). -/
@@ -216,7 +283,7 @@ theorem C15_pipe (c : Cfg) (ran : List Item) (hok : c.setupOk = true) (hmp : c.m
       have hl : (searchLoop c ran {}).2 = true := by simpa [pipeHit, hm, hp] using hpipe
       rw [main_search_seq c _ hm hmp hp hok, hl]
       refine ⟨rfl, fun d hd => ?_⟩
-      rcases searchLoop_diags c hm ran {} d hd with h | h
+      rcases searchLoop_diags c hm hp ran {} d hd with h | h
       · simp at h
       · exact h
     | true =>
